@@ -194,6 +194,10 @@ def pdColumnJson (j : Json) (rows : List (OutRow Rat)) (isReal : OutRow Rat → 
     pure (.arr (col.map (fun o => match o with | none => Json.null | some v => ratToJson v)).toArray)
   | _ => pure Json.null
 
+/-- the points `plot_bias` draws for one model: position (bin mean / category) and `bias_mean` -/
+def biasPointsJson (rows : List (OutRow Rat)) : Json :=
+  .arr ((biasPoints rows).map (fun p => Json.arr #[keyJson p.1.key, cellToJson p.1.featMean, ratToJson p.2])).toArray
+
 def handle (j : Json) : Except String Json := do
   let op ← getStr j "op"
   match op with
@@ -325,7 +329,8 @@ def handle (j : Json) : Except String Json := do
         let keys := b.bins.map (fun o => match o with | none => Key.null | some i => Key.num i)
         let rows := groupedTable keys feature b.edges cols w b.nBins none none
         let pdv ← pdColumnJson j rows (fun _ => true) (fun r => match r.featMean with | .fin v => v | _ => 0)
-        pure (Json.mkObj [("rows", .arr (rows.map rowJson).toArray), ("n_bins", .num ⟨(b.nBins : Int), 0⟩), ("pd", pdv)])
+        pure (Json.mkObj [("rows", .arr (rows.map rowJson).toArray), ("n_bins", .num ⟨(b.nBins : Int), 0⟩), ("pd", pdv),
+          ("bias_points", biasPointsJson rows), ("bias_null", match biasNullPoint rows with | none => .null | some v => ratToJson v)])
       else
         let feature ← getOptStrs j "feature"
         let enumOrder : Option (List String) := match j.getObjVal? "enum" with
@@ -341,7 +346,8 @@ def handle (j : Json) : Except String Json := do
         let pdv ← pdColumnJson j rows (fun r => isRealKey feature (keyOpt r))
           (fun r => match keyOpt r with | some s => keyvals s | none => 0)
         pure (Json.mkObj [("rows", .arr (rows.map rowJson).toArray), ("n_bins", .num ⟨(b.nBins : Int), 0⟩),
-          ("pooled", match b.pooled with | none => .null | some s => .str s), ("pd", pdv)])
+          ("pooled", match b.pooled with | none => .null | some s => .str s), ("pd", pdv),
+          ("bias_points", biasPointsJson rows), ("bias_null", match biasNullPoint rows with | none => .null | some v => ratToJson v)])
   | "pd" =>
     let X ← getRatMatrix j "X"
     let jj ← getNat j "j"
